@@ -697,14 +697,15 @@ v("C05", "early-return-keeps-lock", "httpgrpc/server.go",
 	s.wmu.Lock()
 	defer s.wmu.Unlock()
 
-	s.tr = append(s.tr, md)""", """func (s *serverStream) SetTrailer(md metadata.MD) {
+	// copy: the handler may reuse or edit md after this call returns
+	s.tr = append(s.tr, md.Copy())""", """func (s *serverStream) SetTrailer(md metadata.MD) {
 	s.wmu.Lock()
 	if len(md) == 0 {
 		return
 	}
 	defer s.wmu.Unlock()
 
-	s.tr = append(s.tr, md)""", "R4", "released", "empty trailer set leaves wmu locked forever")
+	s.tr = append(s.tr, md.Copy())""", "R4", "released", "empty trailer set leaves wmu locked forever")
 v("C05", "header-reads-without-lock", "httpgrpc/client.go",
   """	cs.rMu.RLock()
 	defer cs.rMu.RUnlock()
@@ -1596,6 +1597,227 @@ silent_all("size-check-order", [
 		return fmt.Errorf("bad size preface: size cannot be negative: %d", sz)
 	}"""},
 ], "the two size checks in the other order", ["C07", "C01"])
+
+# ------------------------------------------------------------------ wave-2 rules
+v("C05", "send-via-getter-outside-lock", "inprocgrpc/in_process.go",
+  """func (s *inProcessClientStream) SendMsg(m interface{}) error {
+	s.reqMu.Lock()
+	defer s.reqMu.Unlock()
+
+	if s.sendClosed {
+		return fmt.Errorf("send closed")
+	}
+	if isNil(m) {""", """func (s *inProcessClientStream) reqChan() (chan<- frame, error) {
+	s.reqMu.Lock()
+	defer s.reqMu.Unlock()
+	if s.sendClosed {
+		return nil, fmt.Errorf("send closed")
+	}
+	return s.requests, nil
+}
+
+func (s *inProcessClientStream) SendMsg(m interface{}) error {
+	ch, cerr := s.reqChan()
+	if cerr != nil {
+		return cerr
+	}
+	if isNil(m) {""", "R3", "send(inProcessClientStream.requests)", "the request channel is fetched under the lock by a getter but the send happens outside it: CloseSend racing SendMsg panics",
+  edits=[{"file": "inprocgrpc/in_process.go", "old": """func (s *inProcessClientStream) SendMsg(m interface{}) error {
+	s.reqMu.Lock()
+	defer s.reqMu.Unlock()
+
+	if s.sendClosed {
+		return fmt.Errorf("send closed")
+	}
+	if isNil(m) {""", "new": """func (s *inProcessClientStream) reqChan() (chan<- frame, error) {
+	s.reqMu.Lock()
+	defer s.reqMu.Unlock()
+	if s.sendClosed {
+		return nil, fmt.Errorf("send closed")
+	}
+	return s.requests, nil
+}
+
+func (s *inProcessClientStream) SendMsg(m interface{}) error {
+	ch, cerr := s.reqChan()
+	if cerr != nil {
+		return cerr
+	}
+	if isNil(m) {"""}, {"file": "inprocgrpc/in_process.go", "old": "	return writeMessage(s.ctx, s.svrCtx, s.requests, frame{data: m})", "new": "	return writeMessage(s.ctx, s.svrCtx, ch, frame{data: m})"}])
+v("C05", "send-via-getter-under-lock", "", "", "", silent=True, why="the channel is fetched by a getter helper but lock and flag test stay in SendMsg: same behaviour",
+  edits=[{"file": "inprocgrpc/in_process.go", "old": """func (s *inProcessClientStream) SendMsg(m interface{}) error {
+	s.reqMu.Lock()""", "new": """func (s *inProcessClientStream) reqChan() chan<- frame {
+	return s.requests
+}
+
+func (s *inProcessClientStream) SendMsg(m interface{}) error {
+	s.reqMu.Lock()"""}, {"file": "inprocgrpc/in_process.go", "old": "	return writeMessage(s.ctx, s.svrCtx, s.requests, frame{data: m})", "new": "	return writeMessage(s.ctx, s.svrCtx, s.reqChan(), frame{data: m})"}])
+v("C05", "ready-not-released-on-http-failure", "httpgrpc/client.go",
+  """	md, err := asMetadata(reply.Header)
+	if err != nil {
+		onReady(err, nil)
+		return
+	}
+""", """	md, err := asMetadata(reply.Header)
+	if err != nil {
+		rErr = err
+		return
+	}
+""", "R8", "clientStream.ready", "a reply with undecodable headers ends the reader without releasing the WaitGroup: Header() blocks forever")
+v("C05", "ready-released-twice", "httpgrpc/client.go",
+  """	md, err := asMetadata(reply.Header)
+	if err != nil {
+		onReady(err, nil)
+		return
+	}
+""", """	md, err := asMetadata(reply.Header)
+	if err != nil {
+		onReady(err, nil)
+	}
+""", "R8", "clientStream.ready", "missing return: onReady runs twice, WaitGroup counter goes negative (panic)")
+v("C05", "ready-add-moved-to-caller", "", "", "", silent=True, why="Add(1) moved from the constructor to just before the go statement: same pairing",
+  edits=[{"file": "httpgrpc/client.go", "old": "	cs.ready.Add(1)\n	return cs\n", "new": "	return cs\n"},
+         {"file": "httpgrpc/client.go", "old": "	go cs.doHttpCall(ch.Transport, req, r)", "new": "	cs.ready.Add(1)\n	go cs.doHttpCall(ch.Transport, req, r)"}])
+
+v("C06", "copy-fastpath-empty", "inprocgrpc/cloner.go",
+  """	if inIsProto && outIsProto {
+		return internal.CopyMessage(out, in)
+	}""", """	if inIsProto && outIsProto {
+		if reflect.TypeOf(in) == reflect.TypeOf(out) && reflect.ValueOf(in).Elem().IsZero() {
+			return nil
+		}
+		return internal.CopyMessage(out, in)
+	}""", "R5", "ProtoCloner).Copy", "zero message: copy skipped, destination keeps its previous content")
+v("C06", "codec-copy-swapped", "inprocgrpc/cloner.go",
+  "} else if err := codec.Unmarshal(b, out); err != nil {", "} else if err := codec.Unmarshal(b, in); err != nil {", "R5", "CodecCloner$1", "codec copy unmarshals into the source")
+v("C06", "copymessage-args-swapped", "inprocgrpc/cloner.go",
+  "		return internal.CopyMessage(out, in)", "		return internal.CopyMessage(in, out)", "R5", "ProtoCloner).Copy", "destination and source swapped in the delegated copy")
+v("C06", "clonefunc-no-set", "inprocgrpc/cloner.go",
+  "		dest.Set(src)\n		return nil\n", "		_ = src\n		return nil\n", "R5", "CloneFunc$1", "the shallow copy into out is dropped")
+v("C06", "clone-returns-input-when-empty", "inprocgrpc/cloner.go",
+  """	if _, isProto := in.(proto.Message); isProto {
+		return internal.CloneMessage(in)
+	}""", """	if pm, isProto := in.(proto.Message); isProto {
+		if proto.Size(pm) == 0 {
+			return in, nil
+		}
+		return internal.CloneMessage(in)
+	}""", "R6", "ProtoCloner).Clone", "empty message is not cloned: the sender's object crosses")
+v("C06", "copy-early-typecheck", "inprocgrpc/cloner.go",
+  """	if inIsProto && outIsProto {
+		return internal.CopyMessage(out, in)
+	}""", """	if inIsProto && outIsProto {
+		if out == nil {
+			return fmt.Errorf("nil destination")
+		}
+		return internal.CopyMessage(out, in)
+	}""", silent=True, why="an extra failing guard before the copy: success still implies the copy")
+
+v("C03", "trailers-parked-no-option-fanout", "inprocgrpc/in_process.go",
+  """			case kindTrailers:
+				s.trailers = m.trailers
+				s.copts.SetTrailers(s.trailers)
+			case kindError:""", """			case kindTrailers:
+				s.trailers = m.trailers
+			case kindError:""", "R3", "Header:SetTrailers", "Header() that sees the trailers frame stores them but does not hand them to the grpc.Trailer options")
+v("C03", "unary-sts-alias-first-header", "internal/transport_stream.go",
+  """	if sts.hdrs == nil {
+		sts.hdrs = metadata.MD{}
+	}""", """	if sts.hdrs == nil {
+		sts.hdrs = md
+		return nil
+	}""", "R7", "md-not-retained", "first SetHeader keeps the handler's map by reference")
+v("C03", "inproc-trailer-slice-alias", "inprocgrpc/in_process.go",
+  """	for k, v := range md {
+		s.trailers[k] = append(s.trailers[k], v...)
+	}
+	return nil
+}
+
+func (s *inProcessServerStream) Context()""", """	for k, v := range md {
+		if len(s.trailers[k]) == 0 {
+			s.trailers[k] = v
+		} else {
+			s.trailers[k] = append(s.trailers[k], v...)
+		}
+	}
+	return nil
+}
+
+func (s *inProcessServerStream) Context()""", "R7", "md-not-retained", "value slice of the handler's map stored by reference")
+v("C03", "d15-trailer-md-by-reference", "httpgrpc/server.go",
+  "	s.tr = append(s.tr, md.Copy())", "	s.tr = append(s.tr, md)", "R7", "serverStream).SetTrailer", "pre-fix D15")
+v("C03", "trailer-join-at-call", "httpgrpc/server.go",
+  "	s.tr = append(s.tr, md.Copy())", "	s.tr = append(s.tr, metadata.Join(md))", silent=True, why="joins (copies) at the call instead of Copy()")
+v("C03", "asmetadata-split-comma", "httpgrpc/io.go",
+  """			md[k] = append(md[k], v)
+		}
+	}
+	return md, nil""", """			for _, part := range strings.Split(v, ",") {
+				md[k] = append(md[k], part)
+			}
+		}
+	}
+	return md, nil""", "R8", "asMetadata", "header lines split on commas: values containing ',' are multiplied")
+v("C03", "toheaders-trim", "httpgrpc/io.go",
+  "			h.Add(prefix+k, v)", "			h.Add(prefix+k, strings.TrimSpace(v))", "R8", "toHeaders", "values trimmed on the way out")
+v("C03", "asmetadata-lower-values", "httpgrpc/io.go",
+  "			md[k] = append(md[k], v)\n		}\n	}\n	return md, nil", "			md[k] = append(md[k], strings.ToLower(v))\n		}\n	}\n	return md, nil", "R8", "asMetadata", "values case-folded")
+v("C03", "asmetadata-prealloc", "httpgrpc/io.go",
+  "	md := metadata.MD{}\n	for k, vs := range header {", "	md := make(metadata.MD, len(header))\n	for k, vs := range header {", silent=True, why="pre-sized map: same conversion")
+
+v("C01", "global-buffer-pool", "httpgrpc/io.go",
+  "var reservedHeaders = map[string]struct{}{", "var framePool = sync.Pool{New: func() interface{} { return new(bytes.Buffer) }}\n\nvar reservedHeaders = map[string]struct{}{", "R1", "global:httpgrpc.framePool", "a process-wide buffer pool in the transport package",
+  edits=[{"file": "httpgrpc/io.go", "old": "var reservedHeaders = map[string]struct{}{", "new": "var framePool = sync.Pool{New: func() interface{} { return new(bytes.Buffer) }}\n\nvar reservedHeaders = map[string]struct{}{"},
+         {"file": "httpgrpc/io.go", "old": "import (\n", "new": "import (\n	\"bytes\"\n	\"sync\"\n"}])
+v("C01", "global-scratch-array", "httpgrpc/io.go",
+  "var reservedHeaders = map[string]struct{}{", "var prefaceScratch [4]byte\n\nvar reservedHeaders = map[string]struct{}{", "R1", "global:httpgrpc.prefaceScratch", "a shared scratch array for size prefaces")
+v("C01", "channel-field-pool", "httpgrpc/client.go",
+  "type Channel struct {\n", "type Channel struct {\n	bufs sync.Pool\n", "R1", "no-per-call-fields", "a buffer pool on the long-lived channel",
+  edits=[{"file": "httpgrpc/client.go", "old": "type Channel struct {\n", "new": "type Channel struct {\n	bufs sync.Pool\n"},
+         ])
+v("C01", "global-const-string", "httpgrpc/io.go",
+  "var reservedHeaders = map[string]struct{}{", "var binSuffix = \"-bin\"\n\nvar reservedHeaders = map[string]struct{}{", silent=True, why="an immutable string global")
+v("C01", "copy-fastpath-empty", "inprocgrpc/cloner.go",
+  """	if inIsProto && outIsProto {
+		return internal.CopyMessage(out, in)
+	}""", """	if inIsProto && outIsProto {
+		if reflect.TypeOf(in) == reflect.TypeOf(out) && reflect.ValueOf(in).Elem().IsZero() {
+			return nil
+		}
+		return internal.CopyMessage(out, in)
+	}""", "R6", "ProtoCloner).Copy", "zero message: the receiver keeps stale content instead of the (empty) message sent")
+PROBE_OLD = """				if err != io.EOF {
+					return err
+				}
+			}
+		}
+		return nil"""
+PROBE_NEW = """				if _, isStatus := status.FromError(err); isStatus {
+					return err
+				}
+			}
+		}
+		return nil"""
+v("C02", "probe-swallows-transport-error", "httpgrpc/client.go", PROBE_OLD, PROBE_NEW, "R1", "only-eof-is-success",
+  "single-response probe: only status errors are returned, a transport error (reply cut before the trailer) becomes success")
+v("C07", "probe-swallows-transport-error", "httpgrpc/client.go", PROBE_OLD, PROBE_NEW, "R2", "only-eof-is-success",
+  "a single-response reply cut before the end of the trailer is reported as success")
+v("C04", "shadowed-reader-error", "httpgrpc/client.go",
+  """		_, rErr = io.ReadAtLeast(reply.Body, msg, int(sz))
+		if rErr != nil {
+			if rErr == io.EOF {
+				rErr = io.ErrUnexpectedEOF
+			}
+			return
+		}
+""", """		if _, rErr := io.ReadAtLeast(reply.Body, msg, int(sz)); rErr != nil {
+			return
+		}
+""", "R6", "doHttpCall", "the read error is assigned to a shadowing variable: a context end in the middle of a message body ends the stream with OK")
+v("C04", "trailer-dropped-when-ctx-done", "httpgrpc/server.go",
+  "		if str.writeFailed {\n			// nothing else we can do", "		if str.writeFailed || ctx.Err() != nil {\n			// nothing else we can do", "R6", "one-trailer",
+  "server drops the trailer when its (timeout-derived) context is done: the handler's DeadlineExceeded never reaches the client")
 
 
 def main():
